@@ -2,8 +2,10 @@ package props
 
 import (
 	"astverif/crcgate"
+	"astverif/demuxrules"
 	"astverif/layout"
 	"astverif/lin"
+	"astverif/ownership"
 	"astverif/tables"
 	"go/types"
 
@@ -74,6 +76,10 @@ func c13(c *Ctx) {
 	// float64 robustness)
 	decodeDate(c)
 	bcd(c)
+	// a delivered table stays what was decoded: nothing in it aliases the pooled payload buffer (rule S3 of C16)
+	r.Floor("S3", "borrowed/owned byte-slice source sites", ownership.BorrowTaint(c.P, r), 10)
+	// "1..n sections per unit": the unit is complete exactly when its sections are (rules R6, R9, R10 of C02)
+	demuxrules.New(c.P, r).PSICompleteRules()
 	// the lengths the PAT/PMT writers announce (section_length, program_info_length, ES_info_length, descriptor_length)
 	// equal the bytes they emit: rule A2 level by level, including narrow-arithmetic wrap-around (shared with C09)
 	c09Lengths(c)
